@@ -1,22 +1,23 @@
 (** C17 – iterator and I/O adaptors are transparent and count exactly.
 
-    Transcribes every trait impl of [ProgressBarIter<T>] in /repo/src/iter.rs
+    Transcribes every trait impl of [ProgressBarIter<T>] in /repo/src/iter.rs (HEAD 6ff82af)
     (Iterator 117-135, ExactSizeIterator 137-141, DoubleEndedIterator 143-155,
     io::Read 159-183, io::BufRead 185-194, io::Seek 196-208, tokio AsyncWrite
-    212-233 (+ tokio's default poll_write_vectored / is_write_vectored, which the
-    impl does not override), AsyncRead 237-251, AsyncSeek 255-268, AsyncBufRead
-    272-284, futures Stream 288-304 (+ futures' default size_hint), io::Write
-    306-328) and the rayon plumbing wrappers of /repo/src/rayon.rs
-    (IndexedParallelIterator 48-87, ProgressProducer 89-126, ProgressProducerIter
-    130-165, ProgressConsumer 167-212, ProgressFolder 214-237, ParallelIterator
-    239-246) over an ARBITRARY inner object: the inner object is a record of step
-    functions over an abstract state type [S]; all of its nondeterminism (short
-    transfers, errors, Pending, what it writes into the caller's buffers) is
-    whatever those functions return.
+    212-252 incl. poll_write_vectored / is_write_vectored, AsyncRead 256-271,
+    AsyncSeek 275-288, AsyncBufRead 292-304, futures Stream 308-332 incl.
+    size_hint, io::Write 334-356) and the rayon plumbing wrappers of
+    /repo/src/rayon.rs (IndexedParallelIterator 48-87, ProgressProducer 89-126,
+    ProgressProducerIter 130-165, ProgressConsumer 167-212, ProgressFolder 214-237,
+    ParallelIterator 239-246) over an ARBITRARY inner object: the inner object is a
+    record of step functions over an abstract state type [S]; all of its
+    nondeterminism (short transfers, errors, Pending, what it writes into the
+    caller's buffers) is whatever those functions return.
 
-    The model is parameterised by a [variant]: which of the four candidate repairs
-    docs/patches/C17-*.diff the modelled tree contains.  [current_code] (all off) is
-    /repo HEAD; [patched_code] (all on) is HEAD + the four patches.
+    THE CODE UNDER VERIFICATION is [head_code].  The model keeps a [variant]
+    parameter (one boolean per fix commit 7fc986e, 3a319c2, c811d79, 2747e49) only so
+    that the four defects those commits repaired stay stated and refuted as
+    regression statements: [pre_fix_code] (all flags off) is the historical tree
+    before them (8b11f76).
 
     The bar side is the part of BarState the adaptors touch and the getters
     position()/is_finished()/message()/length() read:
@@ -108,20 +109,22 @@ Inductive seek_from := SeekStart (n : N) | SeekEnd (z : Z) | SeekCurrent (z : Z)
 
 (* ------------------------------------------------------------------ *)
 (** * Which tree is modelled                                           *)
-(** One flag per candidate repair (docs/patches/C17-<name>.diff, each a minimal patch against
-    /repo HEAD).  A flag that is [false] transcribes HEAD, [true] transcribes HEAD + that patch. *)
+(** One flag per fix commit in /repo.  [true] transcribes the code WITH that fix (all four are in
+    HEAD), [false] the code before it (historical, kept for the regression statements). *)
 Record variant := {
-  v_stream_size_hint : bool;       (* C17-stream-size-hint.diff: Stream::size_hint is forwarded *)
-  v_stream_end_guard : bool;       (* C17-stream-end-guard.diff: Ready(None) finishes only an unfinished bar *)
-  v_poll_read_saturating : bool;   (* C17-poll-read-saturating.diff: filled - prev_len is a saturating_sub *)
-  v_async_write_vectored : bool    (* C17-async-write-vectored.diff: poll_write_vectored / is_write_vectored forwarded *)
+  v_stream_size_hint : bool;       (* 7fc986e: Stream::size_hint is forwarded *)
+  v_stream_end_guard : bool;       (* 3a319c2: Ready(None) finishes only an unfinished bar *)
+  v_poll_read_saturating : bool;   (* c811d79: filled - prev_len is a saturating_sub *)
+  v_async_write_vectored : bool    (* 2747e49: poll_write_vectored / is_write_vectored forwarded *)
 }.
-Definition current_code : variant :=
-  {| v_stream_size_hint := false; v_stream_end_guard := false;
-     v_poll_read_saturating := false; v_async_write_vectored := false |}.
-Definition patched_code : variant :=
+(** /repo HEAD: the code under verification *)
+Definition head_code : variant :=
   {| v_stream_size_hint := true; v_stream_end_guard := true;
      v_poll_read_saturating := true; v_async_write_vectored := true |}.
+(** the tree before the four fixes (8b11f76): historical *)
+Definition pre_fix_code : variant :=
+  {| v_stream_size_hint := false; v_stream_end_guard := false;
+     v_poll_read_saturating := false; v_async_write_vectored := false |}.
 
 (** What the model has to know about the abstract [Data] moved through write buffers: tokio's
     DEFAULT poll_write_vectored picks the first non-empty slice, or the empty slice. *)
@@ -302,7 +305,7 @@ Section Wrappers.
     let '(s, b) := w in
     let '(s', r) := i_stream_position I s in ((s', b), r).
 
-  (* impl io::Write: write 307-312, write_vectored 314-319, flush 321-323 *)
+  (* impl io::Write: write 335-340, write_vectored 342-347, flush 349-351 *)
   Definition w_write (w : W) (d : Data) : W * io_result E N :=
     let '(s, b) := w in
     let '(s', r) := i_write I s d in
@@ -323,7 +326,7 @@ Section Wrappers.
     let '(s, b) := w in
     let '(s', r) := i_flush I s in ((s', b), r).
 
-  (* impl tokio AsyncWrite: poll_write 213-224, poll_flush 226-228, poll_shutdown 230-232 *)
+  (* impl tokio AsyncWrite: poll_write 213-224, poll_flush 245-247, poll_shutdown 249-251 *)
   Definition w_poll_write (w : W) (d : Data) : W * poll (io_result E N) :=
     let '(s, b) := w in
     let '(s', r) := i_poll_write I s d in
@@ -333,18 +336,18 @@ Section Wrappers.
     | Pending => ((s', b), Pending)
     end.
 
-  (* tokio-1.x src/io/async_write.rs:152-162, the DEFAULT body of poll_write_vectored:
-     bufs.iter().find(|b| !b.is_empty()).map_or(&[][..], |b| &**b) *)
+  (* tokio-1.x src/io/async_write.rs:152-162, the DEFAULT body of poll_write_vectored (what ran on
+     the adaptor before fix 2747e49): bufs.iter().find(|b| !b.is_empty()).map_or(&[][..], |b| &**b) *)
   Definition first_nonempty (ds : list Data) : Data :=
     match find (fun d => negb (buf_is_empty B d)) ds with
     | Some d => d
     | None => buf_empty B
     end.
 
-  (* HEAD: the impl at iter.rs:212-233 overrides neither poll_write_vectored nor is_write_vectored,
-     so tokio's defaults run ON THE ADAPTOR: poll_write(first non-empty slice) resp. false - the inner
-     object's own poll_write_vectored / is_write_vectored are never called.
-     With C17-async-write-vectored.diff: both forwarded, Ready(Ok(n)) counted like poll_write. *)
+  (* HEAD, iter.rs:226-243: poll_write_vectored forwarded, Ready(Ok(n)) counted like poll_write;
+     is_write_vectored forwarded.
+     Before fix 2747e49 the impl overrode neither, so tokio's defaults ran ON THE ADAPTOR:
+     poll_write(first non-empty slice) resp. false - the inner object's own methods were never called. *)
   Definition w_poll_write_vectored (w : W) (ds : list Data) : W * poll (io_result E N) :=
     if v_async_write_vectored V then
       let '(s, b) := w in
@@ -367,12 +370,12 @@ Section Wrappers.
     let '(s, b) := w in
     let '(s', r) := i_poll_shutdown I s in ((s', b), r).
 
-  (* impl tokio AsyncRead: poll_read, iter.rs:238-250.
-     HEAD: `buf.filled().len() as u64 - prev_len` is a checked subtraction in builds with
-     overflow checks (the harness's profile): an inner object that SHRINKS the filled region
-     makes it panic (builds without overflow checks wrap: the position moves BACK; not modelled).
-     With C17-poll-read-saturating.diff: saturating_sub (N subtraction truncates at 0), in every
-     build mode.  Ready(Err) counts the bytes filled before the error as well. *)
+  (* impl tokio AsyncRead: poll_read, iter.rs:257-270.
+     HEAD: `(buf.filled().len() as u64).saturating_sub(prev_len)` (N subtraction truncates at 0), in
+     every build mode.  Ready(Err) counts the bytes filled before the error as well.
+     Before fix c811d79: `buf.filled().len() as u64 - prev_len`, a checked subtraction in builds with
+     overflow checks: an inner object that SHRINKS the filled region made it panic (builds without
+     overflow checks wrapped: the position moved BACK; not modelled). *)
   Definition w_poll_read (w : W) (filled cap : N)
     : outcome (W * (Data * N * poll (io_result E unit))) :=
     let '(s, b) := w in
@@ -385,7 +388,7 @@ Section Wrappers.
     | Pending => Ok ((s', b), (d, filled', Pending))
     end.
 
-  (* impl tokio AsyncSeek: start_seek 256-258, poll_complete 260-267 (sets the position, fix 7186563) *)
+  (* impl tokio AsyncSeek: start_seek 276-278, poll_complete 280-287 (sets the position, fix 7186563) *)
   Definition w_start_seek (w : W) (f : seek_from) : W * io_result E unit :=
     let '(s, b) := w in
     let '(s', r) := i_start_seek I s f in ((s', b), r).
@@ -399,7 +402,7 @@ Section Wrappers.
     | Pending => ((s', b), Pending)
     end.
 
-  (* impl tokio AsyncBufRead: poll_fill_buf 275-278, consume 280-283 (after fix e424c71: counts in consume, like BufRead) *)
+  (* impl tokio AsyncBufRead: poll_fill_buf 295-298, consume 300-303 (after fix e424c71: counts in consume, like BufRead) *)
   Definition w_poll_fill_buf (w : W) : W * poll (io_result E Data) :=
     let '(s, b) := w in
     let '(s', r) := i_poll_fill_buf I s in ((s', b), r).
@@ -408,9 +411,9 @@ Section Wrappers.
     let '(s, b) := w in
     (i_aconsume I s amt, bar_inc b amt).
 
-  (* impl futures_core::Stream: poll_next, iter.rs:291-303.
-     HEAD: unlike Iterator::next there is no `!is_finished()` test: every Ready(None) runs
-     finish_using_style again.  With C17-stream-end-guard.diff: the same guard as Iterator::next. *)
+  (* impl futures_core::Stream: poll_next, iter.rs:311-327.
+     HEAD: Ready(None) has the same `!is_finished()` guard as Iterator::next.
+     Before fix 3a319c2 there was no guard: every Ready(None) ran finish_using_style again. *)
   Definition w_poll_next (w : W) : W * poll (option Item) :=
     let '(s, b) := w in
     let '(s', item) := i_poll_next I s in
@@ -422,8 +425,8 @@ Section Wrappers.
               end in
     ((s', b'), item).
 
-  (* HEAD: Stream::size_hint is NOT overridden: futures_core's default (stream.rs:105-107).
-     With C17-stream-size-hint.diff: forwarded like Iterator::size_hint. *)
+  (* HEAD, iter.rs:329-331: Stream::size_hint forwarded like Iterator::size_hint.
+     Before fix 7fc986e it was not overridden: futures_core's default (stream.rs:105-107). *)
   Definition w_stream_size_hint (w : W) : N * option N :=
     if v_stream_size_hint V then i_stream_size_hint I (fst w) else (0, None).
 
@@ -529,9 +532,9 @@ Section Wrappers.
   (** ** Specification side: what a (call, result) pair of the BARE object must do to the bar
       according to the PROPERTY TEXT ("the position advances by exactly the number of items or
       bytes actually transferred (a seek sets it to the new offset), and exhausting an iterator
-      finishes the bar according to its finish behaviour").  It does not mention [V]: where a
-      variant of the code departs from it, [known_dev] below names the class and props/C17.v has a
-      [_refuted] theorem.  Three readings of the text are built in; they are listed, with reasons,
+      finishes the bar according to its finish behaviour").  It does not mention [V]: HEAD
+      ([head_code]) meets it for every call; where the pre-fix code departed from it, [known_dev]
+      below names the class and props/C17.v has a [_refuted] regression theorem.  Three readings of the text are built in; they are listed, with reasons,
       under "Interpretations" in docs/C17.md:
       I1 read_exact returning Err: the std contract leaves the number of bytes read unspecified and
          the call does not report it, so no wrapper can observe it: nothing is counted;
@@ -583,17 +586,18 @@ Section Wrappers.
     match h with (0, None) => true | _ => false end.
 
   (** The decidable classes (predicates on the bar before the call, the call and what the BARE
-      object returned) in which variant [V] of the code is known to miss [meets_spec]: one per
-      missing patch.  Empty for [patched_code]. *)
+      object returned) in which a variant [V] of the code that LACKS one of the four
+      fixes misses [meets_spec]: one per missing fix.  Empty for [head_code]; used only by the
+      regression statements about [pre_fix_code]. *)
   Definition known_dev (b : bar) (c : call) (r : ret) : bool :=
     match c, r with
-    | CStreamSizeHint, RHint h =>                 (* D-a stream-size-hint-not-forwarded *)
+    | CStreamSizeHint, RHint h =>                 (* stream-size-hint-not-forwarded, fixed 7fc986e *)
         negb (v_stream_size_hint V) && negb (hint_is_default h)
-    | CPollNext, RPollItem (Ready None) =>        (* D-b stream-end-refinishes-finished-bar *)
+    | CPollNext, RPollItem (Ready None) =>        (* stream-end-refinishes-finished-bar, fixed 3a319c2 *)
         negb (v_stream_end_guard V) && bar_is_finished b
-    | CPollRead f _, RPollRead _ f' (Ready _) =>  (* D-c poll-read-filled-shrunk-underflow *)
+    | CPollRead f _, RPollRead _ f' (Ready _) =>  (* poll-read-filled-shrunk-underflow, fixed c811d79 *)
         negb (v_poll_read_saturating V) && (f' <? f)
-    | CPollWriteVectored _, _ =>                  (* D-d async-write-vectored-not-forwarded *)
+    | CPollWriteVectored _, _ =>                  (* async-write-vectored-not-forwarded, fixed 2747e49 *)
         negb (v_async_write_vectored V)
     | CIsWriteVectored, RBool x =>
         negb (v_async_write_vectored V) && x
@@ -1182,8 +1186,7 @@ Inductive c17case :=
 Definition bar0 (len : option N) (pos0 : N) (fin : finish) : bar :=
   {| b_pos := pos0; b_len := len; b_status := InProgress; b_msg := []; b_on_finish := fin |}.
 
-(** [V] = which candidate patches the tree under test contains (chosen by the harness: the
-    constant REPO_HAS in harness/src/bin/c17.rs, printed into the header of every shard) *)
+(** the correspondence shards evaluate [adaptors_check head_code] (harness/src/bin/c17.rs) *)
 Definition adaptors_check (V : variant) (c : c17case) : bool :=
   match c with
   | CaseSeq len pos0 fin script steps fmsg fsink fctr flen =>
